@@ -191,15 +191,24 @@ func roundTripExempt(esc, s string) bool {
 		// U+FFFD), so no escaper can round-trip it.
 		return strings.ContainsRune(s, 0)
 	}
-	if esc != "html_attr" {
+	return false
+}
+
+// sameButReplacedControls: html_attr may deliberately replace a control
+// character by U+FFFD; everything else has to come back unchanged. (A control
+// character that is neither kept nor replaced - written as a numeric reference
+// which decoders remap, like &#128; - is a loss.)
+func sameButReplacedControls(in, dec string) bool {
+	a, b := []rune(in), []rune(dec)
+	if len(a) != len(b) {
 		return false
 	}
-	for _, r := range s {
-		if unicode.Is(unicode.Cc, r) {
-			return true
+	for i := range a {
+		if a[i] != b[i] && !(unicode.Is(unicode.Cc, a[i]) && b[i] == 0xFFFD) {
+			return false
 		}
 	}
-	return false
+	return true
 }
 
 // c13Judge decides one (escaper, input, output) triple.
@@ -214,6 +223,9 @@ func c13Judge(esc, in, out string) *Fail {
 		return nil
 	}
 	dec, ok := decode(esc, out)
+	if ok && esc == "html_attr" && sameButReplacedControls(in, dec) {
+		return nil
+	}
 	if !ok || dec != in {
 		sig := "roundtrip:" + esc
 		if esc == "css" && cssKnownClass(in) {
